@@ -161,16 +161,6 @@ theorem firstMin_cast [DecidableLE ℝ] (l : List Rat) :
 
 /-! ### (3) continued: the law of the modelled step -/
 
-theorem ofFn_get {α : Type} {n : Nat} (f : Fin n → α) (j : Fin n) : (List.ofFn f)[j.val]? = some (f j) := by
-  simp [List.getElem?_ofFn]
-
-theorem ofFn_get_some {α : Type} {n : Nat} (f : Fin n → α) (j : Nat) (b : α) (h : (List.ofFn f)[j]? = some b) :
-    ∃ hj : j < n, b = f ⟨j, hj⟩ := by
-  simp only [List.getElem?_ofFn] at h
-  split at h
-  · rename_i hj; exact ⟨hj, by simpa using h.symm⟩
-  · simp at h
-
 /-- **model_step_law.**  Let the `n` clocks be independent with `τ j ~ Exp(r j)`, `r j > 0`.  The event chosen by
 the model (`firstMin` of the drawn clocks, ties resolved like `np.argmin`) is `i`, and the time advance exceeds `s`,
 with probability `(r i/Σr)·exp(−Σr·s)`:  the pair (chosen event, dt) of the modelled step has the law of one step
